@@ -18,6 +18,7 @@ type LStmt struct {
 	Text     string  `json:"text"`            // simple: the statement text; compound: the condition
 	Compound bool    `json:"compound,omitempty"`
 	Body     []LStmt `json:"body,omitempty"`
+	Elifs    []LElif `json:"elifs,omitempty"` // else-if branches between Body and Else
 	Else     []LStmt `json:"else,omitempty"`
 	HasElse  bool    `json:"has_else,omitempty"`
 	Declare  bool    `json:"declare,omitempty"` // declaration statements are never covered by directives
@@ -29,6 +30,12 @@ type LStmt struct {
 	// filled by the renderer
 	First int `json:"-"`
 	Last  int `json:"-"`
+}
+
+type LElif struct {
+	Kw   string  `json:"kw"` // else if | elseif | elsif
+	Cond string  `json:"cond"`
+	Body []LStmt `json:"body"`
 }
 
 type LSub struct {
@@ -118,6 +125,10 @@ func (g *lintGen) stmt(nest int) LStmt {
 		s := LStmt{Compound: true, Text: rapid.SampledFrom(lintConds).Draw(g.t, "cond"), Lead: g.neutral()}
 		s.ID = g.nextID
 		s.Body = g.block(nest+1, 1, 3)
+		for i, n := 0, rapid.SampledFrom([]int{0, 0, 0, 1, 2}).Draw(g.t, "nelif"); i < n; i++ {
+			s.Elifs = append(s.Elifs, LElif{Kw: rapid.SampledFrom([]string{"else if", "elseif", "elsif"}).Draw(g.t, "elifkw"),
+				Cond: rapid.SampledFrom(lintConds).Draw(g.t, "elifcond"), Body: g.block(nest+1, 1, 2)})
+		}
 		if rapid.Bool().Draw(g.t, "else") {
 			s.HasElse = true
 			s.Else = g.block(nest+1, 1, 2)
@@ -204,6 +215,10 @@ func (p *LProgram) render() string {
 			}
 			w(ind + "if (" + s.Text + ") {")
 			stmts(s.Body, ind+"  ")
+			for k := range s.Elifs {
+				w(ind + "} " + s.Elifs[k].Kw + " (" + s.Elifs[k].Cond + ") {")
+				stmts(s.Elifs[k].Body, ind+"  ")
+			}
 			if s.HasElse {
 				w(ind + "} else {")
 				stmts(s.Else, ind+"  ")
